@@ -25,6 +25,8 @@ import sys
 
 from harness import common, sched, tlc
 
+sys.setrecursionlimit(max(sys.getrecursionlimit(), 20000))
+
 PID = 'C18'
 
 
@@ -424,6 +426,48 @@ def fingerprint_prepass(name, watch, cooked=False):
     return changes, hooks_saw
 
 
+DEEP_SRC = '<dtml-if "d < 104"><dtml-var "rec(nil, _, d=d+1)"><dtml-else><dtml-var a>:<dtml-var w></dtml-if>'
+
+
+def _deep_job(job):
+    """two threads, each a hundred template calls deep in one shared template that calls itself; thread 0 is preempted after k line
+    steps, thread 1 runs to the end, thread 0 resumes.  Sampled, not enumerated: no access programs, no TLC"""
+    k = job
+    from DocumentTemplate.DT_HTML import HTML
+    t = HTML(DEEP_SRC)
+    t.cook()
+    s = sched.Scheduler(2)
+    h = sched.Hooks()
+    h.install(s, ())
+
+    def mk(i):
+        return lambda: t(rec=t, d=0, nil=None, a='A%d' % i, w='W%d' % i)
+    try:
+        res = s.run([mk(0), mk(1)], sched.segments([(0, k), (1, 10 ** 9), (0, 10 ** 9)]), line_mode=True)
+    except (sched.Deadlock, sched.Stuck) as e:
+        return {'k': k, 'dead': str(e)[:200]}
+    finally:
+        h.remove()
+    return {'k': k, 'res': res, 'steps': s.steps[0]}
+
+
+def deep_stage(V, tier):
+    total = _deep_job(10 ** 9)['steps']
+    n = 10 if tier == 'quick' else 120
+    ks = sorted({max(1, total * j // (n + 1)) for j in range(1, n + 1)})
+    want = [('ok', 'A0:W0'), ('ok', 'A1:W1')]
+    for r in common.pool_map(_deep_job, ks, chunk=1, per_case=300):
+        if '_crash' in r or '_timeout' in r:
+            common.machinery_failure('deep recursion stage: %s' % repr(r)[:600])
+        V.count('deep_recursion_schedules')
+        if 'dead' in r or [tuple(x) for x in r['res']] != want:
+            V.violation({'kind': 'schedule', 'stage': 'deep-recursion', 'scenario': 'a template calling itself 104 levels deep, two threads',
+                         'policy': ['segs', [[0, r['k']], [1, 10 ** 9]]], 'results': r.get('res', r.get('dead')), 'solo': want,
+                         'cls': 'wrong-result'})
+        else:
+            V.count('schedules_conform')
+
+
 def main(tier):
     V = common.Verdicts(PID, tier)
     rng = random.Random(common.seed())
@@ -640,6 +684,7 @@ def main(tier):
         summary[name]['writes_seen_by_hooks'] = len(hooks_saw)
         if len(changes) > len(hooks_saw):
             unseen[name] = len(changes) - len(hooks_saw)
+    deep_stage(V, tier)
     marks.append(('line_runs_and_validation', _time.time()))
     cov = {'states': stats['states'], 'transitions': stats['transitions'],
            'stage_wall_s': {marks[i][0]: round(marks[i][1] - marks[i - 1][1], 1) for i in range(1, len(marks))},
